@@ -940,6 +940,9 @@ func runC09(c *Checker) {
 	// "at most N outstanding" is about the N both sides agreed on: the handshake obligations of
 	// C10 (every completion adopts the negotiated N and s = N+1) are part of this check
 	importLayers(c, "C10")
+	// "Send blocks only until an acknowledgement frees a slot" presupposes that the send and the
+	// receive goroutine cannot deadlock on the queue's two mutexes (C18 LOCKORD)
+	importLayers(c, "C18")
 	w := c.w
 	ruleWIN5(c)
 	rg := newRanger(w)
